@@ -521,8 +521,12 @@ func permutations(n int) [][]int {
 // canonical form (source names, contents X/Y/Z…, simple file names, smallest item order).
 func shrink(h History, f *failure) (History, *failure) {
 	cur, curF := h.clone(), f
+	tries := 0
 	try := func(cand History) bool {
 		if !less(cand, cur) {
+			return false
+		}
+		if tries++; tries > 6000 { // bounded effort: long generated files are not shrunk byte by byte
 			return false
 		}
 		g, _ := check(cand)
@@ -611,6 +615,16 @@ func shrink(h History, f *failure) (History, *failure) {
 		for _, d := range distinctStrings(cur, func(it Item) *string { return &it.Content }) {
 			var cands []string
 			toks := contentTok.FindAllString(d, -1)
+			if len(toks) > 300 { // a generated file: cut it down to its markers first, then by halves
+				var ms []string
+				for _, t := range toks {
+					if len(t) > 1 {
+						ms = append(ms, t)
+					}
+				}
+				cands = append(cands, strings.Join(ms, ""), strings.Join(toks[:len(toks)/2], ""), strings.Join(toks[len(toks)/2:], ""))
+				toks = nil
+			}
 			for k := 0; k < len(toks) && len(toks) > 1; k++ {
 				cands = append(cands, strings.Join(toks[:k], "")+strings.Join(toks[k+1:], ""))
 			}
@@ -632,6 +646,9 @@ func shrink(h History, f *failure) (History, *failure) {
 		for i := 0; i < len(cur) && !changed; i++ {
 			for j := 0; j < len(cur[i].Items) && !changed; j++ {
 				toks := contentTok.FindAllString(cur[i].Items[j].Content, -1)
+				if len(toks) > 300 {
+					continue
+				}
 				for k := 0; k < len(toks) && len(toks) > 1 && !changed; k++ {
 					cand := cur.clone()
 					cand[i].Items[j].Content = strings.Join(toks[:k], "") + strings.Join(toks[k+1:], "")
